@@ -13,9 +13,19 @@ import (
 
 func pbServCtrlSerialize(ctrl *MsgServerCtrl) *pbx.ServerMsg_Ctrl {
 	var params map[string][]byte
-	if ctrl.Params != nil {
-		if in, ok := ctrl.Params.(map[string]any); ok {
-			params = interfaceMapToByteMap(in)
+	// Handlers build params as maps of different value types.
+	switch in := ctrl.Params.(type) {
+	case map[string]any:
+		params = interfaceMapToByteMap(in)
+	case map[string]string:
+		params = make(map[string][]byte, len(in))
+		for key, val := range in {
+			params[key], _ = json.Marshal(val)
+		}
+	case map[string]int:
+		params = make(map[string][]byte, len(in))
+		for key, val := range in {
+			params[key], _ = json.Marshal(val)
 		}
 	}
 
